@@ -18,6 +18,7 @@ class Contract:
         self.loops = kw.pop('loops', {})            # ordinal -> dict(inv=[..], idx=.., decreases=..)
         self.locals = kw.pop('locals', {})          # local name -> type string
         self.ghost = kw.pop('ghost', {})            # ghost parameter name -> type string
+        self.covers_overrides = kw.pop('covers_overrides', False)   # dynamic dispatch may use this contract for every override
         self.assumed = kw.pop('assumed', False)     # trusted: used at call sites, body not verified
         self.assumed_reason = kw.pop('reason', '')
         self.lemma_instances = kw.pop('lemma_instances', [])   # [(lemma name, {lemma var: spec expr over params})]
@@ -70,10 +71,11 @@ class Registry:
 
     def primary(self, key):
         """The contract used at call sites: the first non-block contract registered for key."""
-        for c in self.contracts.get(key, []):
-            if c.block is None:
+        cs = [c for c in self.contracts.get(key, []) if c.block is None]
+        for c in cs:
+            if c.name and c.name.startswith('abs:'):
                 return c
-        return None
+        return cs[0] if cs else None
 
     def declare_fields(self, cls, **fields):
         self.fields.setdefault(cls, {}).update(fields)
